@@ -34,7 +34,8 @@ CHECKS["C19"] = (
     "with <= 2 flags (quick) / <= 4 flags (thorough) and six spellings CrossHair exhausts the path tree of Path.__init__ and each path "
     "is compared with the class docstring read as a predicate: accept iff the mode is satisfied, every rejection is PathError, "
     "relative/absolute bookkeeping. change_to_path_dir is run nested to depth 2/3 with solver-chosen path kinds and a raising body; "
-    "nested config files with relative Path_fr arguments are parsed from five working directories on a real directory tree.",
+    "nested config files with relative Path_fr arguments are parsed from five working directories on a real directory tree."
+    " The nested-config harness includes an entry config file that is a symbolic link into another directory holding decoys.",
     "Trusted: the file-system model (chain of four nodes, no symlinks, searchable ancestors), the docstring reading used as oracle, "
     "CrossHair/z3. Outside: URL/fsspec modes (u, s), an existing FIFO under a mode with f and c, symlinks, real permission bits (the "
     "sandbox runs as root, so permission-dependent counterexamples are replayed against the fake os only).",
@@ -49,7 +50,8 @@ CHECKS["C11"] = (
     "names, method-name clashes, depth <= 2; thorough: depth 3 and more clashes) and a value kind; leaf values are symbolic ints. After "
     "every step all observers (getitem, in, get, items/keys/values with and without branches, as_dict, clone and its independence, ==, "
     "dict conversions, dotted vs. step-by-step access) are compared with a nested-dict model. All histories of length <= 2 are exhausted "
-    "(quick and thorough), length 3 over a reduced alphabet in the thorough tier.",
+    "(quick and thorough), length 3 over a reduced alphabet in the thorough tier."
+    " Leaves that are lists of namespaces are a fifth value kind (k <= 2), and after the read-only observers the namespace must still equal the model.",
     "Trusted: the 60-line reference model (an assignment through a leaf turns it into a branch; del of a missing key raises), CrossHair/z3. "
     "Outside: histories longer than the bound, dict-valued leaves and keys that traverse them, histories not starting from the empty namespace.",
     "DESIGN.md §4 C11",
@@ -119,7 +121,8 @@ CHECKS["C20"] = (
     "(live re_range_* patterns, unbounded digits) and timedelta (patterns captured from the live deserializer); restricted string types "
     "accept exactly their regex language on solver-generated members, non-members and near-misses. Registered types (range, timedelta, "
     "Decimal, complex, bytes, bytearray, UUID, pathlib, SecretStr) round trip through serializer/deserializer, dump/parse_string and "
-    "the command line on solver-enumerated menus; secrets never appear in dumps.",
+    "the command line on solver-enumerated menus; secrets never appear in dumps."
+    " For every registered type the parsed value is handed to a caller that mutates it (bytearray, list) before the same text is parsed again on the same and on a fresh parser.",
     "Trusted: CrossHair/z3, floats as reals, the regular models of str(timedelta)/range_serializer output (validated on samples). "
     "Outside: float rounding, values beyond the menus for the C-implemented codecs (decimal, base64, uuid, datetime).",
     "DESIGN.md §4 C20",
@@ -133,7 +136,8 @@ CHECKS["C02"] = (
     "shape family whose shape is chosen by solver integers and whose numeric leaves are symbolic. Each exhausted path tree checks (1) an "
     "accepted result conforms structurally to the hint, (2) a strictly conforming value is never rejected (and returned unchanged when it "
     "holds no strings), (3) a container is accepted iff every element is accepted in element position, a fixed tuple iff arity and "
-    "elements agree, a Union iff some member accepts - for every permutation of the members, through objects and through argv texts.",
+    "elements agree, a Union iff some member accepts - for every permutation of the members, through objects and through argv texts."
+    " Session-3 additions: '--x+=text' appends on List[elem] whose element type is a Union with a sequence member (accepted iff the element type accepts the text), and '--x.KEY=text' item options on int- and str-keyed Dict hints, alone and after an earlier value (keys of the declared type, earlier items kept, a repeated item replaced; mappings mixing key types judged key by key).",
     "Trusted: the 40-line structural predicate strict_conforms (Literal membership as Python `in`), CrossHair/z3, floats as reals, "
     "restricted-int leaves from a window. Outside: symbolic strings (fixed menus of look-alike texts), Callable/Type/Protocol hints, "
     "class types (C14), value equality across Union orders.",
@@ -164,7 +168,8 @@ CHECKS["C08"] = (
     "class specs from defaults, class groups, groups) CrossHair exhausts the operation's path tree on symbolic leaves with and without "
     "an invalid value injected (the call then raises midway); a deep snapshot of every argument (structure, concrete container types, "
     "id() of every nested container, leaf values), of get_defaults(), cwd, os.environ, argparse.Namespace and sys.argv is compared "
-    "afterwards. instantiate_classes is run twice: same classes, no object shared between the two results.",
+    "afterwards. instantiate_classes is run twice: same classes, no object shared between the two results."
+    " Operations in which the parsed keys have no previous value (parse_object defaults=False, parse_string, parse_env) run on a class argument whose declared default is a class spec with init_args; declared defaults include Namespace-valued ones; the default-config-file shape has an untyped positional.",
     "Trusted: CrossHair/z3, the text stub for dump/save. Outside: lists of argument strings (only the empty argv with a namespace= is "
     "exercised), I/O failures during save, parsers outside the shape list.",
     "DESIGN.md §4 C08",
@@ -179,7 +184,8 @@ CHECKS["C18"] = (
     "that goes to a sub-file); for each schedule save() runs on real files in a fresh directory whose snapshot (names, sizes, SHA-256) "
     "is compared before and after: a refused overwrite leaves pre-existing files byte-identical, a failing save leaves the directory "
     "exactly as it was in single- and multi-file mode, and a successful save parses back (parse_path) to the saved configuration, "
-    "sub-file sections included. Thorough repeats the schedule for json and json_indented.",
+    "sub-file sections included. Thorough repeats the schedule for json and json_indented."
+    " Sub-file references with a directory component, an edit made after loading, a layout whose only sub-file belongs to a Dict argument, and two sub-files of equal base name were added in session 3.",
     "Trusted: the local file system. Outside: I/O errors in the middle of a write, fsspec targets, jsonnet/jsonschema sub-files.",
     "DESIGN.md §4 C18",
 )
@@ -192,7 +198,8 @@ CHECKS["C04"] = (
     "(defaults, default config file, second one through a glob pattern, environment config, environment variable, namespace=, --cfg "
     "text, option, '+' append / dict item / second option, second --cfg text) - and, in the thorough tier, all 24 orders of the "
     "command line items - with the namespace value a symbolic int; files and environment variables are really written per path and "
-    "the final value of the key is compared with a 25-line fold over the sources in the documented order (replace, append, set item).",
+    "the final value of the key is compared with a 25-line fold over the sources in the documented order (replace, append, set item)."
+    " A sixth key kind, Union[int, List[int]] appended to with scalars, and a directory that the default-config pattern matches were added in session 3.",
     "Trusted: the reference fold (namespace= folded between environment and command line; a dict in a config replaces the dict). "
     "Outside: values in text sources are concrete; config arguments inside sub-parsers, URLs/fsspec, jsonnet ext_vars.",
     "DESIGN.md §4 C04",
@@ -208,7 +215,8 @@ CHECKS["C15"] = (
     "parse the target equals the function of the final source values; the dict that dump serialises has no target key and re-parsing "
     "it reconstructs the target (path trees exhausted). A concrete part checks the API facts without a symbolic dimension: the option "
     "of a plain target is rejected, the target is not required, env/argv sources, chains and double targets are refused at link "
-    "creation, single- and multi-file save (incl. a target inside a section written to a sub-file) hold no target and re-parse.",
+    "creation, single- and multi-file save (incl. a target inside a section written to a sub-file) hold no target and re-parse."
+    " Links that live only in a sub-parser (values arriving through the root parser's object/string/--cfg/argv channels) and two consecutive parses on one parser with ==-equal sources of different type under a type-sensitive compute_fn were added in session 3.",
     "Trusted: CrossHair/z3, text stub for dump. Outside: instantiate-links (C16), links across subcommands, symbolic values in env/argv.",
     "DESIGN.md §4 C15",
 )
@@ -239,7 +247,8 @@ CHECKS["C17"] = (
     "leaf ints are symbolic (object channel) - path trees exhausted. The result is compared with a 20-line selection model at every "
     "level: the stored choice, the chosen section = sub-parser defaults overlaid with the given values, no section of any other "
     "subcommand, failure iff the model says so. The same through --cfg text and parse_string, and every combination of a name on "
-    "argv, in the config, in the environment and a section in the config (256 combinations per mode).",
+    "argv, in the config, in the environment and a section in the config (256 combinations per mode)."
+    " A naming variant runs the selection harness with subcommands named like Namespace methods; the command line may name a subcommand without repeating its option, so settings given for it in a config must survive.",
     "Trusted: the selection model (named on argv, else named in config/env, else first in declaration order with settings, else error "
     "if required). Outside: depth 3, default config files inside sub-parsers, empty sections.",
     "DESIGN.md §4 C17",
@@ -256,7 +265,8 @@ CHECKS["C14"] = (
     "returning one; every init_arg valid for that very class; no unknown names); after instantiate_classes the object is of exactly "
     "the named class, built once, with exactly the configured init_args plus dict_kwargs. A nested harness checks a holder with a "
     "class-typed parameter and a list of classes (built first, passed by identity) and an abstract base; a concrete harness compares "
-    "six short notations (argv and object) with the explicit form.",
+    "six short notations (argv and object) with the explicit form."
+    " Two more harnesses: class_path naming functions judged by their annotated return type, and a Dict[str, Base] argument given twice where every key must equal what a plain class argument yields for the same two values.",
     "Trusted: the structural validity rule per parameter kind (None is 'not set' and never a reason to reject), CrossHair/z3. Outside: "
     "Protocols, class changes between text sources, Dict/Union-of-class parameters, symbolic class_path strings.",
     "DESIGN.md §4 C14",
@@ -272,7 +282,8 @@ CHECKS["C06"] = (
     "--cfg text, argv, environment); every tampered configuration must be rejected with ArgumentError and, for foreign keys, the "
     "message must name the key; the untouched configuration parses for all (symbolic) leaf ints; parse_known_args refuses outside "
     "callers. The path tree is exhausted; the solver's share is the position/kind/channel, leaf values of tampered configs are concrete "
-    "because the real message formatting is part of the assertion.",
+    "because the real message formatting is part of the assertion."
+    " Every channel is also run with defaults=False, and the section of the selected subcommand is emptied/removed when the required key was the only thing in it; a class argument whose own parameter is a link target while its dataclass parameter has a required field of the same name.",
     "Trusted: the choice of parser shape. Outside: other shapes, empty mappings left behind by a removal (Optional[...] reads {} as None).",
     "DESIGN.md §4 C06",
 )
@@ -286,7 +297,8 @@ CHECKS["C07"] = (
     "per field one of 9 value kinds (absent, int, bool, None, lists of 0-2, str, float) with symbolic ints and whether an empty group is "
     "given; the four parse_object outcomes must agree (all reject, or equal nested values) and so must the dicts dump serialises "
     "(path trees exhausted). The same through argv dotted options, '+' appends, whole-group JSON (three styles), a config string and "
-    "environment variables on concrete values, including the dump text.",
+    "environment variables on concrete values, including the dump text."
+    " Field list G4 states defaults that differ from the class's own, for the dataclass style as a default instance whose Dict[str, dataclass] member holds dataclass instances.",
     "Trusted: CrossHair/z3; comparison as nested plain values. Outside: other field lists, instantiation of the group, help text.",
     "DESIGN.md §4 C07",
 )
@@ -301,7 +313,8 @@ CHECKS["C12"] = (
     "auto_cli must call exactly the selected callee(s) once, bind every parameter to the given value converted to the declared type, "
     "else to the set_defaults value, else to the signature default (None for Optional without default); a missing required parameter "
     "makes the call fail with ArgumentError before any callee runs; constructor and method each receive only their own parameters; "
-    "the return value is the callee's. Path trees exhausted.",
+    "the return value is the callee's. Path trees exhausted."
+    " Components f6/f7 add float defaults given as equal ints through a config, PEP 604 optionals, and explicit nulls for Optional parameters whose default is not None.",
     "Trusted: CrossHair/z3. Outside: generated signatures beyond the fixed module (programs are not solver variables), the "
     "components=None module scan, async callees, methods with a config parameter.",
     "DESIGN.md §4 C12",
